@@ -33,6 +33,23 @@ def _derived(fn, root):
                 out.add(u.id); work.append(u.id)
     return out
 
+def hook_name(fn, i):
+    """for an indirect call through a global allocation hook (void *(*nsync_malloc_ptr_)(size_t)): the name of the hook, else None"""
+    if i.op != 'call' or i.callee is not None or i.ty != 'i8*':
+        return None
+    cv = i.x.get('cv')
+    l = fn.imap.get(cv) if isinstance(cv, str) else None
+    if l is not None and l.op == 'load' and isinstance(l.ops[0], dict) and l.ops[0].get('k') == 'global' and 'alloc' in l.ops[0].get('n', ''):
+        return l.ops[0]['n']
+    return None
+
+def alloc_name(fn, i, fns):
+    """name of the allocator this call obtains memory from (malloc & co., an allocating wrapper, an allocation hook), else None"""
+    if i.op == 'call' and i.callee in fns:
+        return i.callee
+    h = hook_name(fn, i)
+    return ('(*%s)' % h) if h else None
+
 def allocator_functions(mod):
     """malloc & co. plus every defined function that returns the result of one of them (a wrapper such as a zeroing allocator)"""
     fns = set(ALLOCATORS)
@@ -42,7 +59,7 @@ def allocator_functions(mod):
         for f in mod.defined.values():
             if f.name in fns:
                 continue
-            for a in (i for i in f.real_insts() if i.op == 'call' and i.callee in fns):
+            for a in (i for i in f.real_insts() if alloc_name(f, i, fns)):
                 D = _derived(f, a.id)
                 phis = set(i.id for i in f.real_insts() if i.op == 'phi' and any(isinstance(v, str) and v in D for v, _ in i.ops))
                 if any(i.op == 'ret' and i.ops and isinstance(i.ops[0], str) and (i.ops[0] in D or i.ops[0] in phis) for i in f.real_insts()):
@@ -70,11 +87,11 @@ def run(ctx, rep):
             raise AnalysisBroken('C19: constructor %s not found in the library IR' % name)
         rep.functions.add(name)
         cfg = cfg_of(fn)
-        allocs = [i for i in fn.real_insts() if i.op == 'call' and i.callee in alloc_fns]
+        allocs = [i for i in fn.real_insts() if alloc_name(fn, i, alloc_fns)]
         if not allocs:
             raise AnalysisBroken('C19: %s no longer obtains memory from an allocator (anchor vanished)' % name)
         for a in allocs:
-            if a.callee not in ALLOCATORS:
+            if a.callee is not None and a.callee not in ALLOCATORS:
                 todo.append((a.callee, False))          # an allocating wrapper: its own use of the malloc result is judged too
         um = users_map(fn)
         for a in allocs:
@@ -100,18 +117,18 @@ def run(ctx, rep):
                         if all(x.op in ('ret', 'dbg') for x in um.get(u.id, [])):
                             continue
                     ok = any(cfg.dominates(nn, u.block.id) for (_, nn, _) in guards)
-                    rep.instance('C19.R1', '%s: use of %s result by %s at %s' % (name, a.callee, u.op, u.where()))
+                    rep.instance('C19.R1', '%s: use of %s result by %s at %s' % (name, alloc_name(fn, a, alloc_fns), u.op, u.where()))
                     rep.oblig('C19.R1', ok)
                     if not ok:
                         rep.violate(Violation('C19.R1', u.where(),
-                            '%s: the result of %s (%s) is used by a %s that is not guarded by a NULL check' % (name, a.callee, a.where(), u.op),
+                            '%s: the result of %s (%s) is used by a %s that is not guarded by a NULL check' % (name, alloc_name(fn, a, alloc_fns), a.where(), u.op),
                             site='%s/%s-use' % (name, u.op)))
             if not guards and not is_ctor:
                 continue          # a plain wrapper that hands the pointer on unexamined (every use was judged by R1 above)
             if not guards:
-                rep.instance('C19.R2', '%s: no NULL test of the %s result' % (name, a.callee))
+                rep.instance('C19.R2', '%s: no NULL test of the %s result' % (name, alloc_name(fn, a, alloc_fns)))
                 rep.oblig('C19.R2', False)
-                rep.violate(Violation('C19.R2', a.where(), '%s: the result of %s is never compared with NULL' % (name, a.callee),
+                rep.violate(Violation('C19.R2', a.where(), '%s: the result of %s is never compared with NULL' % (name, alloc_name(fn, a, alloc_fns)),
                                       site='%s/no-null-test' % name))
                 continue
             # R2
@@ -148,7 +165,7 @@ def run(ctx, rep):
                 rep.instance('C19.R2', '%s: NULL edge %s->%s, %d block(s) on the NULL path' % (name, b.block.id, nl, len(region)))
                 rep.oblig('C19.R2', ok)
                 if bad is not None:
-                    rep.violate(Violation('C19.R2', bad.where(), '%s: a %s is executed on the path where %s returned NULL' % (name, bad.op + (' ' + bad.callee if bad.op == 'call' and bad.callee else ''), a.callee),
+                    rep.violate(Violation('C19.R2', bad.where(), '%s: a %s is executed on the path where %s returned NULL' % (name, bad.op + (' ' + bad.callee if bad.op == 'call' and bad.callee else ''), alloc_name(fn, a, alloc_fns)),
                                           site='%s/null-path-%s' % (name, bad.op)))
                 elif not rets_ok:
                     rep.violate(Violation('C19.R2', b.where(), '%s: the NULL path does not return NULL' % name, site='%s/null-path-return' % name))
